@@ -17,6 +17,12 @@ FIRST = {
     "S08b-scheduler-start-count-ignores-retraction": ("missed", "C08 gained scripted_trace (retracting plan-ahead policy whose attributes match the offers it asks for)"),
     "S17b-stale-topological-order-cache": ("missed", "C17 gained graph_history: all clauses re-asked after every add_node/add_child/remove on one Graph object"),
     "S01b-reload-profile-skips-booking": ("missed", None),
+    "S04d-pool-ledger-update-overwrites-shared-keys": ("missed (getter never read, ids never shared)", "C04 pools_machine reads the pool-level ledger (WorkerPool.resources, get_utilization) after every operation and builds a third of its clusters with machine-local resource ids"),
+    "S13d-fit-test-refuses-zero-request-of-exhausted-type": ("missed", "C13 profiles may contain a zero-quantity entry (as C01's do)"),
+    "S19d-gamma-coefficient-override-becomes-fallback": ("missed (oracle gap: release-policy parameters were not compared)", "C19 compares rate, coefficient, concurrency, num_invocations and period of every loaded policy with the description and the override flags"),
+    "S15d-run-load-on-private-copy": ("missed (oracle gap: 'model loaded' was judged on the state before the call)", "C15 applies the evictions of a decision before judging its batches, as the simulator's event order does"),
+    "S02d-released-tasks-skip-the-parent-check": ("missed (shape never generated)", "C02 graphs may give the branch heads of a conditional an extra ordinary parent outside the region"),
+    "S07d-placement-with-a-cancelled-parent-is-consumed": ("missed (clause switched off for the non-work-conserving generated policy)", "new C07 clause join_cancelled: the join of a conditional that ran must not be CANCELLED in worlds without a cancellation source"),
     "S03d-fuzz-delta-in-us-added-to-coarser-unit": ("missed", "C03 worlds contain strategies with whole-millisecond runtimes written in milliseconds"),
     "S11d-running-parent-anchored-at-its-start-time": ("missed", "scheduler-input states may contain RUNNING tasks that overrun their strategy (as runtime variance makes them), capped so that what is left never exceeds the strategy's runtime"),
     "S10d-clockwork-run-load-on-live-pools": ("missed (flag never set)", "a quarter of the Clockwork histories (C15, C10 clockwork_history) run with scheduler_run_load and little RAM; the side-effect clause compares free GPU, free RAM, loaded and pending profiles of every live worker"),
